@@ -1,12 +1,14 @@
-(* C11 — property theorems only. *)
+(* C11 — property theorems only.  Each is closed by [exact] of a lemma from the
+   Proofs_* files and followed by Print Assumptions. *)
 From Coq Require Import List ZArith Bool.
-From Verif Require Import lib.Wire gen.Consts_c11 c11.Model c11.Spec c11.Proofs.
+From Verif Require Import lib.Wire gen.Consts_c11 c11.Model c11.Spec c11.Proofs c11.Proofs_Cnt c11.Proofs_Caps c11.Proofs_Life.
 Import ListNotations.
 Local Open Scope Z_scope.
 
-(* the relay reports OK for a CONNECT only if the destination holds a reservation,
+(* 1. the relay reports OK for a CONNECT only if the destination holds a reservation,
    the source did not reach the relay through another relay, the ACL permits it and
-   neither party already has MaxCircuits circuits *)
+   neither party already has MaxCircuits circuits (a relayed peer never holds a
+   reservation: handleReserve refuses it, see c11_no_reservation_over_relay) *)
 Theorem c11_connect_only_if : forall c s src sa dst acl dm sm dc s' obs,
   handle_connect c s src sa dst acl dm sm dc = (s', obs) ->
   (nth 0 obs 0 = ST_OK \/ nth 1 obs 0 = ST_OK) ->
@@ -15,3 +17,146 @@ Theorem c11_connect_only_if : forall c s src sa dst acl dm sm dc s' obs,
   s_link s src sa = true /\ s_closed s = false.
 Proof. exact connect_only_if_l. Qed.
 Print Assumptions c11_connect_only_if.
+
+(* 2. however a reservation or circuit attempt ends — for EVERY history of opens,
+   closes, RESERVE/CONNECT requests with any failure injected, data, half-closes,
+   resets, time and Relay.Close — the circuit counters are exactly the number of
+   open circuits of the peer, a peer without open circuit carries no hop tag, and
+   the memory reserved in the service scope is 2*BufferSize per open circuit *)
+Theorem c11_counters_restored : forall c ops,
+  let s := run c init_st ops in
+  (forall p, s_conns s p = cnt p (s_circs s)) /\
+  (forall p, cnt p (s_circs s) = 0 -> s_htag s p = false) /\
+  (s_closed s = false -> s_mem s = 2 * c_buf c * nopenl (s_circs s)).
+Proof. exact counters_restored_l. Qed.
+Print Assumptions c11_counters_restored.
+
+(* 3. reservations disappear at the first collection after they expired, and all of
+   them when the relay is closed — every history *)
+Theorem c11_expired_collected : forall c ops, 0 <= c_ttl c ->
+  let s := run c init_st ops in
+  (forall p e, s_rsvp s p = Some e -> last_tick (s_now s) <= e) /\
+  (s_closed s = true -> forall p, s_rsvp s p = None).
+Proof. exact expired_collected_l. Qed.
+Print Assumptions c11_expired_collected.
+
+(* 4. a peer without connection holds no reservation — for every history in which no
+   RESERVE races with the peer's own disconnect (hypothesis forced by the proof) *)
+Theorem c11_gone_on_disconnect_partial : forall c ops, 0 <= c_ttl c -> race_free ops ->
+  let s := run c init_st ops in forall p, connected s p = false -> s_rsvp s p = None.
+Proof. exact gone_on_disconnect_partial_l. Qed.
+Print Assumptions c11_gone_on_disconnect_partial.
+
+(* ... and without that hypothesis it is false: open p; RESERVE p while p's last
+   connection closes before handleReserve takes the lock *)
+Definition a4 (ip : Z) : addr := mkAddr ip 0 false false.
+Definition wit_cfg : cfg :=
+  mkCfg 600000 4 2 1 2 1024 true 100 30000 1073741824 100 3
+        [(a4 1, a4 2); (a4 1, a4 3); (a4 2, a4 4)].
+
+Theorem c11_gone_on_disconnect_refuted : exists c ops p, 0 <= c_ttl c /\
+  let s := run c init_st ops in connected s p = false /\ s_rsvp s p <> None.
+Proof.
+  exists wit_cfg, [(0, OOpen 2 0, 3); (3, OReserve 2 0 true 2, 9)], 2.
+  split; [vm_compute; discriminate|]. vm_compute. split; [reflexivity | discriminate].
+Qed.
+Print Assumptions c11_gone_on_disconnect_refuted.
+
+(* 5. caps: among the peers 1..n, the holders of a live reservation number at most
+   MaxReservations, at most MaxReservationsPerIP per IP and MaxReservationsPerASN per
+   ASN — for every history in which a peer's RESERVEs always come from the same
+   address (hypothesis forced by the proof) *)
+Theorem c11_caps_respected_partial : forall c ops,
+  0 <= c_maxrsvp c -> 0 <= c_maxip c -> 0 <= c_maxasn c -> 0 <= c_ttl c -> stable_addrs c ops ->
+  let s := run c init_st ops in
+  zlength (holders c s (fun _ => true)) <= c_maxrsvp c /\
+  (forall i, zlength (holders c s (fun p => a_ip (A c p) =? i)) <= c_maxip c) /\
+  (forall a, a <> 0 -> zlength (holders c s (fun p => a_asn (A c p) =? a)) <= c_maxasn c).
+Proof. exact caps_partial_l. Qed.
+Print Assumptions c11_caps_respected_partial.
+
+(* ... and false without it: p holds a reservation from IP 1; its refresh from a second
+   address on the full IP 2 is refused and drops p's constraint entry; q is then admitted
+   on IP 1: two live reservations that were granted from IP 1, cap 1 *)
+Theorem c11_caps_respected_refuted : exists c ops,
+  0 <= c_maxrsvp c /\ 0 <= c_maxip c /\ 0 <= c_maxasn c /\ 0 <= c_ttl c /\
+  let s := run c init_st ops in
+  c_maxip c < zlength (holders c s (fun p => a_ip (A c p) =? 1)).
+Proof.
+  exists wit_cfg,
+    [(0, OOpen 1 0, 3); (3, OOpen 1 1, 6); (6, OOpen 2 0, 9); (9, OOpen 3 0, 12);
+     (12, OReserve 3 0 true 0, 18); (18, OReserve 1 0 true 0, 24);
+     (24, OReserve 1 1 true 0, 30); (30, OReserve 2 0 true 0, 36)].
+  vm_compute. repeat split; discriminate.
+Qed.
+Print Assumptions c11_caps_respected_refuted.
+
+(* 6. a relayed connection never obtains a reservation *)
+Theorem c11_no_reservation_over_relay : forall c s p k acl inj,
+  a_relayed (addr_of c p k) = true -> fst (handle_reserve c s p k acl inj) = s.
+Proof.
+  intros c s p k acl inj H. unfold handle_reserve.
+  destruct (negb (s_link s p k) || s_closed s); [reflexivity|].
+  destruct (negb (mem_ok_always c (s_mem s) maxMessageSize)); [reflexivity|]. rewrite H. reflexivity.
+Qed.
+Print Assumptions c11_no_reservation_over_relay.
+
+(* 7. limited relay: when time has moved to t no circuit whose deadline (opening time +
+   Limit.Duration) has passed is open; LimitReader lets at most the remaining allowance
+   through.  (The per-circuit byte invariant over whole histories is checked by the
+   correspondence only: _partial.) *)
+Theorem c11_limit_duration_partial : forall c ops t ci,
+  let s := run c init_st ops in
+  In ci (s_circs (advance_to c s t)) -> ci_open ci = true -> 0 <= ci_dl ci ->
+  s_now (advance_to c s t) < ci_dl ci.
+Proof. intros c ops t ci s. apply advance_deadline_l. apply run_cinv, init_cinv. Qed.
+Print Assumptions c11_limit_duration_partial.
+
+Theorem c11_limit_bytes_partial : forall L f n, f <= L -> f + Z.min n (L - f) <= L.
+Proof. exact limit_reader_l. Qed.
+Print Assumptions c11_limit_bytes_partial.
+
+(* 8. the answer to a granted RESERVE names the relay as signer and issuer and exactly
+   the reserving peer (signature and envelope are checked on the real code by the
+   harness on every grant: crypto enters by the correspondence only) *)
+Theorem c11_voucher_fields_partial : forall c s p k acl inj s' obs,
+  handle_reserve c s p k acl inj = (s', obs) -> nth 0 obs 0 = ST_OK ->
+  nth 1 obs 0 = 1 /\ nth 3 obs 0 = 1 /\ nth 4 obs 0 = 1 /\ nth 5 obs 0 = p.
+Proof.
+  intros c s p k acl inj s' obs H Hok. unfold handle_reserve in H.
+  destruct (negb (s_link s p k) || s_closed s); [inversion H; subst; discriminate Hok|].
+  destruct (negb (mem_ok_always c (s_mem s) maxMessageSize)); [inversion H; subst; discriminate Hok|].
+  destruct (a_relayed (addr_of c p k)); [inversion H; subst; discriminate Hok|].
+  cbv zeta in H. destruct (inj =? 2).
+  - destruct (negb acl); [inversion H; subst; discriminate Hok|].
+    destruct (c_reserve c _ p _ _ _) as [s2 ok]. destruct (negb ok); inversion H; subst; discriminate Hok.
+  - destruct (negb acl); [inversion H; subst; discriminate Hok|].
+    destruct (c_reserve c s p _ _ _) as [s2 ok]. destruct (negb ok); inversion H; subst; [discriminate Hok|].
+    cbn. repeat split; reflexivity.
+Qed.
+Print Assumptions c11_voucher_fields_partial.
+
+(* ---- non-vacuity -------------------------------------------------------------------------- *)
+(* the monitor accepts the model's trace of a happy history (reserve, connect, data up to
+   the limit, duration limit) and rejects the refused-refresh history at the grant *)
+Example monitor_accepts_happy :
+  monitor wit_cfg (model_trace wit_cfg init_st
+    [(0, OOpen 1 0, 3); (3, OOpen 3 0, 6); (6, OReserve 3 0 true 0, 12);
+     (12, OConnect 1 0 3 true 0 0 1, 18); (18, OSend 1 0 99, 24); (24, OSend 1 0 5, 30);
+     (30, OSend 1 1 100, 36); (36, OAdvance 40000, 40042)]) = [].
+Proof. vm_compute. reflexivity. Qed.
+
+Example monitor_rejects_cap_overflow :
+  monitor wit_cfg (model_trace wit_cfg init_st
+    [(0, OOpen 1 0, 3); (3, OOpen 1 1, 6); (6, OOpen 2 0, 9); (9, OOpen 3 0, 12);
+     (12, OReserve 3 0 true 0, 18); (18, OReserve 1 0 true 0, 24);
+     (24, OReserve 1 1 true 0, 30); (30, OReserve 2 0 true 0, 36)]) = [ERR_PROPERTY; 7; CL_CAPS; 2].
+Proof. vm_compute. reflexivity. Qed.
+
+(* a circuit reported OK towards a destination without reservation is rejected *)
+Example monitor_rejects_connect_without_reservation :
+  monitor_case [1; 600000; 4; 2; 1; 2; 1024; 1; 100; 30000; 1073741824; 100; 1;  1; 0; 0; 2; 0; 0;
+                10; 0; 1; 0;   3; 0; 0; 0;  -1; 0; 0; -1; 0; 0; 0; 0; 0; 0; 1; 0;  0;
+                13; 3; 1; 0; 1; 1; 0; 0; 1;  100; 100; 1;
+                9; 2048; 1; 1;  -1; 2; 0; -1; 0; 0; 0; 0; 0; 1; 1; 0;  1;  1; 0; 0; 0; 0] <> [].
+Proof. vm_compute. discriminate. Qed.
